@@ -194,6 +194,25 @@ theorem read_applies_attached_mapping_partial (x : PMInput) (o : PMObject) (h : 
       (select (x.maps (f % x.m)) sel).bind (fun mp => applyMapping mp ((plane x (f / x.m) (f % x.m)).map cellValue)) :=
   readReal_build x o h hel hw f hf sel
 
+/-- **`RealWorldValueMapping` accepts exactly** a look-up table for an integer range with one entry per value of the
+range and neither slope nor intercept, or a slope together with an intercept and no table (regenerated from
+`pm/content.py`). -/
+theorem mapping_constructor_iff (lut slope icpt : Option Int) (isFloat : Bool) (first last r : Int) :
+    rwvmInit lut slope icpt isFloat first last = .ok r ↔
+      (r = 1 ∧ ∃ n, lut = some n ∧ slope = none ∧ icpt = none ∧ isFloat = false ∧ n = last - first + 1) ∨
+      (r = 2 ∧ lut = none ∧ slope.isSome = true ∧ icpt.isSome = true) :=
+  rwvmInit_iff lut slope icpt isFloat first last r
+
+/-- ... hence a mapping that was constructed is **defined on its whole range**: every stored value between the
+first and last value mapped has an entry of the table (`lut[v - first]`), resp. is mapped to `slope*v + intercept`;
+only values outside are refused. -/
+theorem mapping_defined_in_range (mp : Mapping) (v : Int) :
+    (∀ f l : Int, mp.isLut = true → mp.first = (f : Rat) → (mp.lut.length : Int) = l - f + 1 → f ≤ v ∧ v ≤ l →
+        ∃ y, mp.lut[(v - f).toNat]? = some y ∧ applyMapping mp [v] = .ok [y]) ∧
+    (mp.isLut = false → mp.first ≤ (v : Rat) ∧ (v : Rat) ≤ mp.last →
+        applyMapping mp [v] = .ok [(v : Rat) * mp.slope + mp.intercept]) :=
+  ⟨fun f l hl hf hlen hv => lut_defined_in_range mp f l hl hf hlen v hv, fun hl hv => linear_defined_in_range mp hl v hv⟩
+
 /-! ## secondary captures -/
 
 /-- **The image pixel module of `SCImage`** (regenerated decision block) accepts exactly `SCAccepted`: bool
@@ -323,5 +342,13 @@ example : CellsWF exampleInput := by intro i k j; rfl
 /-- a float32 input is admitted (and then cannot be read back frame by frame) -/
 example : (build { exampleInput with dtypeKind := "f", dtypeName := "float32", dtypeStr := "float32", itemsize := 4 }).toOption.map
     (fun o => (o.element, o.bitsAllocated, o.bitsStored)) = some ("FloatPixelData", 32, -1) := by decide
+
+/-- a 1x3 uint16 secondary capture with 12 bits: written as 12 stored in 16 allocated, decoded to itself -/
+example : (scBuild ⟨fun _ _ => .error .other, fun _ _ _ _ _ => .error .other⟩ "1.2.840.10008.1.2.1" "MONOCHROME2" 12
+    ⟨1, 3, none, .u16, [1, 4095, 256]⟩).toOption.map (fun o => (o.bitsAllocated, o.bitsStored, o.highBit, o.frameBytes)) =
+    some (16, 12, 11, [1,0, 255,15, 0,1]) := by decide
+/-- the same array with one value of 4096 is refused -/
+example : (scBuild ⟨fun _ _ => .error .other, fun _ _ _ _ _ => .error .other⟩ "1.2.840.10008.1.2.1" "MONOCHROME2" 12
+    ⟨1, 3, none, .u16, [1, 4096, 256]⟩).toOption.isNone = true := by decide
 
 end HdVerif.C19
